@@ -13,7 +13,7 @@ GAP_CLASS = {
     'lf': 'LT', 'cr': 'LT', 'crlf': 'LT', 'lflf': 'LT',
     'ls': 'LSPS', 'ps': 'LSPS',
     'cmtlf': 'CMT[LT]', 'cmt3': 'CMT[LT]', 'cmt2lf': 'CMT[LT]',
-    'cmtlsps': 'CMT[LSPS]',
+    'cmtlsps': 'CMT[LSPS]', 'cmtcr': 'CMT[LT]',
     'line': 'LINECMT', 'vtline': 'LINECMT',
     'lfcmt': 'LT+CMT', 'cmt_lf': 'CMT+LT', 'ffcmt': 'CMT+LT',
     'sp': 'SP', 'tab': 'SP', 'nbsp': 'SP', '2sp': 'SP', 'cmt': 'CMT',
